@@ -1,3 +1,6 @@
 import LcModel.Prelude
 import LcModel.Difficulty.Model
 import LcModel.Props.C14
+import LcModel.Sampling.Model
+import LcModel.Sampling.Lemmas
+import LcModel.Props.C15
